@@ -27,8 +27,21 @@ def scratch_root():
 
 
 class Sandbox:
-    def __init__(self, cache_path=('k',), parent=None):
-        self.top = tempfile.mkdtemp(prefix='fbv_', dir=parent or scratch_root())
+    def __init__(self, cache_path=('k',), parent=None, key=None):
+        # The directory name is derived from the scenario id, so that a re-run (a replay file) sees the same path
+        # strings: code whose behaviour depends on the iteration order of a set of file names is then reproducible
+        # under PYTHONHASHSEED=0.  A concurrent run of the same scenario falls back to a random name.
+        base = parent or scratch_root()
+        self.top = None
+        if key is not None:
+            cand = os.path.join(base, 'fbv_' + hashlib.sha256(str(key).encode()).hexdigest()[:8])
+            try:
+                os.mkdir(cand, 0o700)
+                self.top = cand
+            except OSError:
+                pass
+        if self.top is None:
+            self.top = tempfile.mkdtemp(prefix='fbv_', dir=base)
         self.root = os.path.join(self.top, 'root')
         self.tmp = os.path.join(self.top, 'tmp')
         os.mkdir(self.root)
